@@ -2,8 +2,10 @@
 
 Engine: SimNet.  One endpoint per run (server-side connection of TCPServer / UNIXServer, TCPClient / UNIXClient against a simulated
 listener, circuits.io.File on a real pipe), one poller (Select / Poll / EPoll), a drawn script of write payloads (empty ... multi-100-KB,
-content = a fixed pseudo-random pattern indexed by the global stream offset, so every byte is attributable), one close request at a
-drawn position, writes after it, loop iterations and peer reads at drawn moments (a stalling peer + small SO_SNDBUF / pipe size give real
+content = a fixed pseudo-random pattern indexed by the global stream offset, so every byte is attributable), a close request at a
+drawn position, writes after it, FURTHER close requests at drawn later positions while the first one is still deferred (another close
+event, close() of the whole server, the peer half-closing its sending side so that the endpoint reads EOF and closes itself - the
+other direction stays open, so everything written before must still arrive), loop iterations and peer reads at drawn moments (a stalling peer + small SO_SNDBUF / pipe size give real
 partial sends).  Every send()/os.write() call of the endpoint consults a fault script drawn from the tape: accept k of n bytes, raise
 EAGAIN/EWOULDBLOCK/EINTR/ENOBUFS (nothing sent), raise EPIPE/ECONNRESET (connection dead afterwards).
 
@@ -22,6 +24,8 @@ Oracle (ground truth = the bytes the OS accepted, recorded by the interposer; cl
         2 x (number of payloads written + partial sends and real refusals seen in that phase) + 10 loop iterations
     (factor 2: the loop polls for writability once per iteration, after the send of that iteration has filled the kernel buffer
     again, so every send can cost one iteration in which the descriptor is reported not writable).
+A peer half-close that comes before any close event counts as the close request for the PRE/POST split (the endpoint may close itself
+on EOF: what is written afterwards may be dropped, what was written before is owed) but no close is demanded because of it.
 Keeping the writer registered after the buffer drained is not judged.  How often close() is called on the descriptor is not judged.
 """
 import errno
@@ -29,14 +33,13 @@ import fcntl
 import hashlib
 import io
 import os
-import socket as _socket
 
 from simcore import world, simnet
 from simcore.world import W
 from simcore.simnet import NET, Peer, PeerListener, step, settle, make_running
 from simcore.runner import HarnessLimit
 
-from circuits import Manager, Component
+from circuits import BaseComponent, Component, Manager, handler
 from circuits.core.pollers import Select, Poll, EPoll
 from circuits.net.sockets import TCPServer, UNIXServer, TCPClient, UNIXClient
 from circuits.net import events as NE
@@ -63,13 +66,16 @@ STUBBED = ['socket -> SimSocket interposer (AF_UNIX behind simulated addresses, 
            'with the same fault script', 'select module -> non-blocking shim', 'time -> virtual clock', 'remote ends are harness Peer objects / the read end of the pipe']
 ASSUMPTIONS = ['writes after the close request may be written or dropped (statement silent); they must not displace or repeat earlier data',
                '"written before the close request" = write event fired before the close event on the same channel (FIFO dispatch)',
+               'EOF on the read side (peer shutdown(SHUT_WR)) is treated like a close request: data written before it must still be delivered, data written '
+               'after it may be dropped; the peer never closes or resets the connection fully before the end of a run',
                'how many times close() is called on the descriptor is not judged (idempotent on Python sockets/files)',
                'an endpoint that keeps its writer registered after draining is not flagged',
                'ENOBUFS counts as a transient refusal for File as well (the statement lists it for every endpoint)']
 PROBES = ['cfg:faults', 'cfg:fault-free', 'kind:tcpserver', 'kind:unixserver', 'kind:tcpclient', 'kind:unixclient', 'kind:file',
           'poller:Select', 'poller:Poll', 'poller:EPoll', 'partial-send-real', 'fault:short_write', 'fault:transient_send_error',
           'fault:fatal_send_error', 'close-deferred', 'close-immediate', 'close-performed', 'write-after-close-request', 'write-after-closed',
-          'payload-empty', 'payload-large', 'fatal-signalled', 'post-payload-written', 'flushed-in-full']
+          'payload-empty', 'payload-large', 'fatal-signalled', 'post-payload-written', 'flushed-in-full', 'repeated-close',
+          'repeated-close-while-deferred', 'close-all-while-deferred', 'eof-while-close-deferred', 'eof-before-close']
 TIERS = {
     'quick': dict(runs=50000, wall=26, chunk=25, cfg=dict(max_ops=16, large=(60_000, 300_000), max_total=450_000, large_w=1)),
     'thorough': dict(runs=200000, wall=600, chunk=40, cfg=dict(max_ops=40, large=(300_000, 2_500_000), max_total=6_000_000, large_w=2)),
@@ -211,7 +217,7 @@ def _run(ctx):
     pays = []            # (offset in PAT, size, 'pre'|'post') in write order
     st = dict(total=0, pre_total=0, close_req=False, post=[], states={(-1, 0)}, acc=0, call=None, last='none', ncalls=0,
               partials=0, refusals=0, fatal=None, signalled=False, closed_at=None, after_close=0, viol=False, dead=False,
-              sock=None, connected=False, deferred=False, faults_seen=0, late=0)
+              sock=None, connected=False, deferred=False, faults_seen=0, late=0, close_dem=False, ncloses=0, eof=False, disp=0, call_disp=-1)
 
     def fail(key, detail):
         if not st['viol']:
@@ -307,7 +313,9 @@ def _run(ctx):
         cause = st['last']
         detail = ('%s: only %d of the %d bytes written before the close request were accepted by the OS (no fatal send error); last send outcome: %s; '
                   'descriptor %s' % (where, exp, st['pre_total'], cause, 'closed at byte %d' % st['closed_at'] if st['closed_at'] is not None else 'open'))
-        if cause in CAUSE:
+        # a descriptor closed inside the very event dispatch that made the last send call: the endpoint thought its buffer was empty, i.e. the
+        # outcome of that send lost the rest; closed by a later event (another close request, EOF, ...): the close did not wait for the buffer
+        if cause in CAUSE and (st['closed_at'] is None or st['call_disp'] == st['disp']):
             fail('C11/%s/%s/payload-lost' % (grp, cause), detail)
         elif st['closed_at'] is not None:
             fail('C11/%s/close/before-buffer-flushed' % grp, detail)
@@ -332,6 +340,7 @@ def _run(ctx):
         if st['closed_at'] is not None:
             st['after_close'] += 1
         st['call'] = dict(n=n, short=None, done=False)
+        st['call_disp'] = st['disp']
         st['ncalls'] += 1
 
     def end_call_error(name, e, fatal):
@@ -389,7 +398,7 @@ def _run(ctx):
             st['fatal'] = 'real-error'      # the last send raised an errno the interposer did not inject and cannot see: do not demand completeness
         ctx.log('closed', st['acc'])
         ctx.trace('  descriptor closed after %d accepted bytes' % st['acc'])
-        if st['close_req']:
+        if st['close_dem']:
             ctx.stat('close-performed')
         # "a close requested while data is still buffered takes effect only after all of it has been written"
         if st['fatal'] is None and not pre_done() and not st['viol']:
@@ -425,9 +434,16 @@ def _run(ctx):
             ctx.stat('exception-event')
             ev('exception', getattr(etype, '__name__', str(etype)))
 
+    class Disp(BaseComponent):
+        @handler(channel='*', priority=1e18)
+        def _c11_dispatch(self, event, *a, **k):     # counts event dispatches (only used to word the finding key, see missing())
+            st['disp'] += 1
+
     m = make_running(Manager())
     pcls().register(m)
     Exc().register(m)
+    Disp().register(m)
+    NET.sndbuf = sndbuf
     if grp == 'server':
         addr = ('10.0.0.1', 80) if kind == 'tcpserver' else '/sim/c11.sock'
 
@@ -436,15 +452,16 @@ def _run(ctx):
 
             def connect(self, sock, *peer):
                 st['sock'] = sock
-                if sndbuf:
-                    sock.setsockopt(_socket.SOL_SOCKET, _socket.SO_SNDBUF, sndbuf)
                 ev('connect')
 
             def error(self, *a):
                 ev('error', _errname(a))
 
             def disconnect(self, sock):
-                ev('disconnect')
+                if sock is st['sock']:
+                    ev('disconnect')
+                else:
+                    ctx.log('ev', 'disconnect-listener')      # close() of the whole server closes the listening socket as well
 
         (TCPServer if kind == 'tcpserver' else UNIXServer)(addr, bufsize=bufsize).register(m)
         Obs().register(m)
@@ -455,10 +472,10 @@ def _run(ctx):
         settle([m])
         chan = 'server'
         fire_write = lambda data: m.fire(NE.write(st['sock'], data), chan)
-        fire_close = lambda: m.fire(NE.close(st['sock']), chan)
+        fire_close = lambda whole=False: m.fire(NE.close() if whole else NE.close(st['sock']), chan)
+        half_close = peer.shutdown_wr
         peer_read = lambda limit: len(peer.recv(limit))
     elif grp == 'client':
-        NET.sndbuf = sndbuf
         addr = ('10.0.0.2', 7000) if kind == 'tcpclient' else '/sim/c11-peer.sock'
         lst = PeerListener(addr)
 
@@ -495,7 +512,8 @@ def _run(ctx):
             raise HarnessLimit('C11: client did not connect')
         peer = got[0]
         fire_write = lambda data: m.fire(NE.write(data), chan)
-        fire_close = lambda: m.fire(NE.close(), chan)
+        fire_close = lambda whole=False: m.fire(NE.close(), chan)
+        half_close = peer.shutdown_wr
         peer_read = lambda limit: len(peer.recv(limit))
     else:
         r, w = os.pipe()
@@ -547,7 +565,8 @@ def _run(ctx):
             raise HarnessLimit('C11: File did not open')
         chan = 'file'
         fire_write = lambda data: m.fire(IE.write(data), chan)
-        fire_close = lambda: m.fire(IE.close(), chan)
+        fire_close = lambda whole=False: m.fire(IE.close(), chan)
+        half_close = None
 
         def peer_read(limit):
             n = 0
@@ -564,7 +583,7 @@ def _run(ctx):
     if st['sock'] is None and grp != 'file':
         raise HarnessLimit('C11: no connection was established')
     try:
-        _drive(ctx, st, pays, PAT, m, kind, grp, fire_write, fire_close, peer_read, pol, pre_done, missing, fail, finish_real_error)
+        _drive(ctx, st, pays, PAT, m, kind, grp, fire_write, fire_close, half_close, peer_read, pol, pre_done, missing, fail, finish_real_error)
     finally:
         NET.oplog = None            # NET.close_all() closing the descriptors is not part of the history
         if grp == 'file':
@@ -577,7 +596,7 @@ def _run(ctx):
             raise RuntimeError('C11 harness: peer received %d bytes, interposer recorded %d, model %d' % (len(peer.inp), len(st['sock'].sim_sent), st['acc']))
 
 
-def _drive(ctx, st, pays, PAT, m, kind, grp, fire_write, fire_close, peer_read, pol, pre_done, missing, fail, finish_real_error):
+def _drive(ctx, st, pays, PAT, m, kind, grp, fire_write, fire_close, half_close, peer_read, pol, pre_done, missing, fail, finish_real_error):
     ch, cfg = ctx.ch, ctx.cfg
     ALL = 1 << 40
 
@@ -626,17 +645,48 @@ def _drive(ctx, st, pays, PAT, m, kind, grp, fire_write, fire_close, peer_read, 
         ctx.trace('write #%d: %d bytes (stream offset %d)%s' % (len(pays) - 1, size, off, ' [after the close request]' if phase == 'post' else ''))
         fire_write(PAT[off:off + size])
 
-    def do_close():
+    def unflushed():
+        return max(st['pre_total'] - st['acc'], 0)
+
+    def do_close(form=None):
+        """A close request.  The first one splits the written data into PRE / POST; every further one (another close event, close() of the
+        whole server, the peer's half-close = EOF on the read side) must change nothing: PRE is still owed in full."""
+        first = not st['close_req']
+        if form is None:
+            forms = ['event'] + (['all'] if grp == 'server' else []) + (['eof'] if half_close is not None and not st['eof'] else [])
+            wt = dict(event=6, all=2, eof=2) if first else dict(event=3, all=3, eof=3)
+            form = forms[ch.weighted([wt[f] for f in forms], 'close-form')] if len(forms) > 1 else forms[0]
+        pending = unflushed() > 0 and not gone()
+        if form == 'eof':
+            # the peer shuts down its sending direction only: the endpoint reads EOF (and closes itself), the other direction stays open,
+            # so everything written before must still arrive.  Nothing is demanded of writes that follow, and no close is demanded by it.
+            st['eof'] = True
+            st['close_req'] = True
+            ctx.stat('eof-before-close' if first else ('eof-while-close-deferred' if pending else 'eof-after-close'))
+            ctx.log('peer-half-close', st['pre_total'], st['acc'])
+            ctx.trace('peer half-closes (shutdown of its sending side): endpoint will read EOF; %d of %d written bytes not yet accepted by the OS' % (
+                unflushed(), st['pre_total']))
+            half_close()
+            return
         st['close_req'] = True
-        unflushed = st['pre_total'] - st['acc']
-        if unflushed > 0 and not gone():
-            st['deferred'] = True
-            ctx.stat('close-deferred')
-        else:
-            ctx.stat('close-immediate')
-        ctx.log('close-request', st['pre_total'], st['acc'])
-        ctx.trace('close requested (%d of %d written bytes not yet accepted by the OS)' % (max(unflushed, 0), st['pre_total']))
-        fire_close()
+        st['ncloses'] += 1
+        if not st['close_dem']:
+            st['close_dem'] = True
+            if pending:
+                st['deferred'] = True
+                ctx.stat('close-deferred')
+            else:
+                ctx.stat('close-immediate')
+        elif not gone():
+            ctx.stat('repeated-close')
+            if pending:
+                ctx.stat('repeated-close-while-deferred')
+        if form == 'all' and pending and not first:
+            ctx.stat('close-all-while-deferred')
+        ctx.log('close-request', form, st['pre_total'], st['acc'])
+        ctx.trace('close requested%s%s (%d of %d bytes written before the first close request not yet accepted by the OS)' % (
+            ' for the whole server' if form == 'all' else '', '' if first else ' again', unflushed(), st['pre_total']))
+        fire_close(form == 'all')
 
     def do_step():
         k = ch.choice([1, 2, 1, 3, 6], 'steps')
@@ -659,7 +709,8 @@ def _drive(ctx, st, pays, PAT, m, kind, grp, fire_write, fire_close, peer_read, 
             break
         if gone() and st['late'] >= 2:
             break               # the endpoint is gone and two late writes were tried: nothing more to learn from this script
-        op = ch.weighted([6, 3, 2, 0 if st['close_req'] else 1], 'op')
+        # one explicit close request at a drawn position; after it (or after the peer's half-close) further close requests at drawn positions
+        op = ch.weighted([6, 3, 2, 1 if not st['close_req'] else (3 if st['ncloses'] < 4 and not gone() else 0)], 'op')
         (do_write, do_step, do_read, do_close)[op]()
 
     # ---- the loop keeps running with the fault script still active and the peer reading now and then
@@ -676,8 +727,8 @@ def _drive(ctx, st, pays, PAT, m, kind, grp, fire_write, fire_close, peer_read, 
 
     # ---- final phase: faults stop, the peer drains before every iteration; bounded liveness
     pol.enabled = False
-    if not st['viol'] and not st['close_req'] and ch.chance(1, 2, 'close-at-end'):
-        do_close()
+    if not st['viol'] and not st['close_dem'] and ch.chance(1, 2, 'close-at-end'):
+        do_close('event')
     ctx.trace('faults stop; peer drains before every loop iteration')
     base = st['partials'] + st['refusals']
     it = 0
@@ -685,7 +736,7 @@ def _drive(ctx, st, pays, PAT, m, kind, grp, fire_write, fire_close, peer_read, 
         if st['fatal'] is not None:
             done = st['signalled']
         else:
-            done = pre_done() and (not st['close_req'] or st['closed_at'] is not None)
+            done = pre_done() and (not st['close_dem'] or st['closed_at'] is not None)
         if done:
             break
         bound = 2 * (len(pays) + st['partials'] + st['refusals'] - base) + 10
